@@ -37,12 +37,19 @@ RULE = ('flowsheets of real thermosteam.network.AbstractUnit subclasses joined b
         'used only to find a concrete failing input when something broke. kind=sort: '
         'Network(path).sort(ends) on a random permutation of a (sub)set of the units with a random set of cut streams, '
         'compared with the Coq model (exact order, stop flag = no warning, recycle set, PathSource.units of every item). '
+        'kind=whole: a flowsheet split in two parts (a cycle and the rest, or at random), Network.from_units on each part, then the real '
+        'join_network_at_unit (at a unit fed by the other part, a random unit of the receiver, or an absent unit) or _append_network, then '
+        'reduce_recycles, each compared with the model (receiver, mutated argument, ValueError). '
         'non-trivial = sort changed the order or reported a recycle / from_units result has >= 3 units; distinct = distinct case hash')
 ASSUMPTIONS = ['reach is a strict partial order in the sort theorems: holds whenever the streams not in `ends` form no cycle '
                '(get_downstream_units computes a transitive closure); non-vacuity Example on a concrete DAG',
-               'reduce_recycles / join_network_at_unit / _append_network / sort_feeds_big_to_small have no model; fill_path and '
+               'sort_feeds_big_to_small has no model; reduce_recycles / join_network_at_unit / _append_network are modelled as whole '
+               'methods (part 7) and replayed on every recorded call; the model of reduce_recycles treats a recycle as a set exactly '
+               'when it holds at least two streams (asserted on every recorded call); the join_network_at_unit theorem assumes an '
+               'argument without recycle that shares no unit with the receiver (what from_feedstock passes: evaluated per call, not '
+               'derived from `ends`); fill_path and '
                'simplified_linear_paths are modelled (part 6) and proved to yield duplicate-free, pairwise disjoint fragments and '
-               'duplicate-free loops, but the composition of from_feedstock (fragments -> joins -> sort) is not a single model; '
+               'duplicate-free loops, but the composition of from_feedstock (fragments -> joins -> multi-feed joins -> reduce -> sort) is not a single model; '
                'the surgery theorems assume receivers and arguments whose `units` equals the units of their path (checked '
                'on every recorded step); "each unit once" after surgery is evaluated per step, not proved (it is false '
                'without facts about the paths fill_path produces: Example C19_surgery_once_needs_path_facts)',
@@ -58,6 +65,9 @@ TRUSTED = ['model coq/C19/Model.v (split_first/sweep/sort_loop, dloop) is hand-w
            'models of Network.sort on nested paths (down_item, item_reach, item_direct, sort_tree) and of the path surgery '
            '(remove_overlap ... insert_recycle) are hand-written from network.py; tie = step-by-step replay of recorded calls; '
            'recycle_sink of a recycle *set* is an observed oracle (Python set iteration order)',
+           'models of join_network_at_unit, _append_network and reduce_recycles (join_at, ir_arg, append_network, reduce, reduce_rc) '
+           'are hand-written from network.py; tie = replay of every call recorded during from_units plus direct calls of the real '
+           'methods on the from_units results of the two parts of a split flowsheet (kind=whole; receiver and mutated argument compared)',
            'model of path finding (fill, drop_until, sort_len_asc/desc, simp, simplified, find_paths) is hand-written from '
            'fill_path, path_with_recycle_to_cyclic_path_with_recycle, find_linear_and_cyclic_paths_with_recycle and '
            'simplified_linear_paths; tie = comparison of every observed call; streams are listed in outlet-port order',
@@ -450,6 +460,22 @@ def gen_cases(rng, tier):
         elif rng.random() < 0.06:
             path.insert(rng.randrange(len(path) + 1), rng.choice(path))   # malformed: a unit listed twice
         cases.append({'kind': 'sort', **fs, 'path': path, 'ends': sorted(ends)})
+    # --- whole methods called directly: receiver = from_units(part A), argument = from_units(part B) of one flowsheet
+    for k in range(160 if quick else 2500):
+        n = rng.randint(3, 10)
+        fs = gen_flowsheet(rng, n, rng.random() < 0.85)
+        cyc = find_cycle(fs)
+        r = rng.random()
+        if cyc and len(cyc) < n and r < 0.35: B = set(cyc)
+        elif cyc and len(cyc) < n and r < 0.6: B = set(range(n)) - set(cyc)
+        else: B = set(rng.sample(range(n), rng.randint(1, n - 1)))
+        A = [u for u in range(n) if u not in B]
+        rng.shuffle(A); Bl = sorted(B); rng.shuffle(Bl)
+        E = process_edges(fs)
+        conn = [v for s_, u, v in E if u in B and v in A]
+        r = rng.random()
+        unit = rng.choice(conn) if conn and r < 0.6 else rng.choice(A) if r < 0.9 else rng.choice(Bl)
+        cases.append({'kind': 'whole', **fs, 'A': A, 'B': Bl, 'unit': unit, 'op': 'append' if k % 4 == 0 else 'join'})
     return cases
 
 # ------------------------------------------------------------------ implementation side
@@ -492,9 +518,21 @@ def utree(x, uid, sid):
     return {'path': [utree(i, uid, sid) for i in x.path], 'recycle': recycle_ids(x.recycle, sid),
             'units': sorted(uid[u] for u in x.units)}
 
+# whole methods of the multi-feed phase (part 7 of the model): recorded whenever they are not nested in themselves;
+# they are transparent for the recording of the SURGERY calls they make
+OUTER = ['join_network_at_unit', '_append_network', 'reduce_recycles']
+
+def sets_ok(x):
+    """a recycle is a set exactly when it holds at least two streams, at every level (what the model of reduce_recycles assumes)"""
+    nw = env()['nw']
+    r = x.recycle
+    ok = (len(r) >= 2) if isinstance(r, set) else True
+    return ok and all(sets_ok(i) for i in x.path if isinstance(i, nw.Network))
+
 class SurgeryRecorder:
     def __init__(self, uid, sid):
         self.uid, self.sid, self.depth, self.steps, self.sinks = uid, sid, 0, [], []
+        self.odepth, self.osteps, self.ocur = 0, [], None
     def __enter__(self):
         nw = env()['nw']; N = nw.Network
         self.saved = {m: getattr(N, m) for m in SURGERY}
@@ -519,12 +557,37 @@ class SurgeryRecorder:
                     if top: rec.steps.append(st)
             return f
         for m in SURGERY: setattr(N, m, wrap(m, self.saved[m]))
+        self.osaved = {m: getattr(N, m) for m in OUTER}
+        def owrap(name, orig):
+            def f(self_, *a):
+                top = rec.odepth == 0
+                if top:
+                    st = {'op': name, 'self': utree(self_, rec.uid, rec.sid), 'sinks': [], 'sets_ok': sets_ok(self_),
+                          'args': [rec.arg(x) if isinstance(x, N) else rec.uid[x] for x in a]}
+                    rec.ocur = st
+                rec.odepth += 1
+                try:
+                    r = orig(self_, *a)
+                    if top:
+                        st['after'] = utree(self_, rec.uid, rec.sid)
+                        st['args_after'] = [rec.arg(x) for x in a if isinstance(x, N)]
+                    return r
+                except (ValueError, AttributeError):
+                    if top: st['after'] = None
+                    raise
+                finally:
+                    rec.odepth -= 1
+                    if top: rec.osteps.append(st)
+            return f
+        for m in OUTER: setattr(N, m, owrap(m, self.osaved[m]))
         sink0 = self.saved_sink.fget
         def recycle_sink(self_):
             r = sink0(self_)
             rc = self_.recycle
             if rec.depth > 0 and isinstance(rc, set) and len(rc) > 1:
                 rec.cur['sinks'].append([sorted(rec.sid[i] for i in rc), 99 if r is None else rec.uid[r]])
+            if rec.odepth > 0 and isinstance(rc, set) and len(rc) > 1:
+                rec.ocur['sinks'].append([sorted(rec.sid[i] for i in rc), 99 if r is None else rec.uid[r]])
             return r
         N.recycle_sink = property(recycle_sink)
         return self
@@ -537,6 +600,7 @@ class SurgeryRecorder:
     def __exit__(self, *a):
         N = env()['nw'].Network
         for m in SURGERY: setattr(N, m, self.saved[m])
+        for m in OUTER: setattr(N, m, self.osaved[m])
         N.recycle_sink = self.saved_sink
 
 def units_consistent(net):
@@ -619,14 +683,41 @@ def run_impl(case):
                     net = nw.Network.from_units([units[k] for k in case['order']])
                 except Exception as ex:
                     return {'raised': type(ex).__name__ + ': ' + str(ex)[:80], 'joins': clean_joins(joins),
-                            'steps': surgery.steps, 'finds': finds}
+                            'steps': surgery.steps, 'finds': finds, 'osteps': surgery.osteps}
         finally:
             nw.find_linear_and_cyclic_paths_with_recycle, nw.Network.join_recycle_network = find0, join0
             nw.Network.sort = sort0
         return {'tree': net_tree(net, uid, sid),
                 'all_recycles': sorted(sid[s] for s in net.get_all_recycles()),
                 'warned': any(WARN in str(x.message) for x in w), 'joins': clean_joins(joins), 'sorts': sorts,
-                'steps': surgery.steps, 'finds': finds}
+                'steps': surgery.steps, 'finds': finds, 'osteps': surgery.osteps}
+    if case['kind'] == 'whole':
+        # the whole methods called directly on two from_units results (rebuilt so that a recycle is a set exactly when
+        # it holds at least two streams), followed by reduce_recycles on the receiver
+        with warnings.catch_warnings():
+            warnings.simplefilter('ignore')
+            try:
+                a = nw.Network.from_units([units[k] for k in case['A']])
+                b = nw.Network.from_units([units[k] for k in case['B']])
+            except Exception as ex:
+                return {'skipped': type(ex).__name__, 'osteps': []}
+        def norm(rc):
+            if isinstance(rc, set): return set(rc) if len(rc) >= 2 else next(iter(rc), None)
+            return rc
+        def rebuild(x):
+            r = nw.Network([rebuild(i) if isinstance(i, nw.Network) else i for i in x.path], norm(x.recycle))
+            r.units = set(x.units)
+            return r
+        a, b = rebuild(a), rebuild(b)
+        surgery = SurgeryRecorder(uid, sid)
+        with surgery:
+            try:
+                if case['op'] == 'append': a._append_network(b)
+                else: a.join_network_at_unit(b, units[case['unit']])
+                a.reduce_recycles()
+            except (ValueError, AttributeError):
+                pass
+        return {'osteps': surgery.osteps}
     if case['kind'] == 'nsort':
         # the nested result of from_units, every level shuffled, sorted again by the real Network.sort
         import random
@@ -722,6 +813,23 @@ def step_term(case, st):
     after = 'None' if st['after'] is None else f'(Some {cnet(st["after"])})'
     return f'step_case {cedges(case)} {call(case)} {tb} ({c}) {after}'
 
+def ostep_term(case, st, post=True):
+    """the model of the whole method (join_network_at_unit / _append_network / reduce_recycles), run on the recorded
+    receiver and arguments, gives the recorded receiver (and the recorded argument after the call)"""
+    S, op, a = cnet(st['self']), st['op'], st['args']
+    if op == 'reduce_recycles':
+        after = 'None' if st['after'] is None else f'(Some {cnet(st["after"])})'
+        return f'({cbool(st["sets_ok"])} && reduce_case {call(case)} {S} {after})'
+    if op == '_append_network':
+        if st['after'] is None: return 'false'
+        return f'append_network_case {cbool(post)} {S} {cnet(a[0])} {cnet(st["after"])}'
+    tbl, seen = [], {}
+    for k, v in st['sinks']:
+        if seen.setdefault(tuple(k), v) == v and [k, v] not in tbl: tbl.append([k, v])
+    tb = clist([f'({nl(k)}, {v})' for k, v in tbl])
+    after = 'None' if st['after'] is None else f'(Some ({cnet(st["after"])}, {cnet(st["args_after"][0])}))'
+    return f'join_at_case {cbool(post)} {cedges(case)} {call(case)} {tb} {S} {cnet(a[0])} {a[1]} {after}'
+
 def steps_consistent(st):
     seen = {}
     return all(seen.setdefault(tuple(k), v) == v for k, v in st['sinks'])
@@ -741,11 +849,14 @@ def coq_case(case, out):
     if case['kind'] == 'sort':
         return (f'(sort_case {cedges(case)} {nl(case["ends"])} {nl(case["path"])} {nl(out["path"])} '
                 f'{cbool(out["stop"])} {nl(out["recycle"])} {clist(out["down"], nl)} {cbool(strict_on_path(case))})')
+    if case['kind'] == 'whole':
+        return ' && '.join(ostep_term(case, st, post=False) for st in out['osteps'] if steps_consistent(st)) or 'true'
     if case['kind'] == 'nsort':
         return sort_term(case, out['sorts'][0])
     jt = ' && '.join([join_term(j) for j in out.get('joins', [])] + [sort_term(case, r) for r in out.get('sorts', [])]
                      + [step_term(case, st) for st in out.get('steps', []) if steps_consistent(st)]
-                     + [find_term(case, f) for f in out.get('finds', [])]) or 'true'
+                     + [find_term(case, f) for f in out.get('finds', [])]
+                     + [ostep_term(case, st) for st in out.get('osteps', []) if steps_consistent(st)]) or 'true'
     if 'raised' in out:
         return f'({jt} && false)'
     t = ctree(out['tree'])
@@ -755,6 +866,7 @@ def coq_case(case, out):
     return term
 
 def coq_show(case, out):
+    if case['kind'] == 'whole': return 'tt'
     if case['kind'] == 'nsort' or (out.get('sorts') and not out.get('tree')):
         r = out['sorts'][0]
         return f'(sort_tree {cedges(case)} {call(case)} {nl(r["ends"])} {ctree(r["before"])}, map (down_item {cedges(case)} {nl(r["ends"])}) {clist([ctree(i) if isinstance(i, dict) else f"(IUnit {i})" for i in r["before"]["path"]])})'
@@ -766,6 +878,7 @@ def coq_show(case, out):
     return f'(check_acyclic {nl(case["order"])} {cedges(case)} {t}, check_cyclic {nl(case["order"])} {cedges(case)} {t} {nl(find_cycle(case))}, flat {t}, all_recycles {t})'
 
 def nontrivial(case, out):
+    if case['kind'] == 'whole': return bool(out['osteps'])
     if case['kind'] == 'nsort':
         r = out['sorts'][0]
         return r['before'] != r['after']
@@ -784,13 +897,28 @@ def classify(case, out):
         if st['after'] is None: ks.append('step:raised')
         if st['sinks']: ks.append('step:recycle-set-sink-oracle')
         if not steps_consistent(st): ks.append('step:oracle-inconsistent-skipped')
+    for st in out.get('osteps', []):
+        ks.append('whole:' + st['op'])
+        if st['after'] is None: ks.append('whole:raised'); continue
+        if st['op'] == 'reduce_recycles':
+            if st['after'] != st['self']: ks.append('whole:reduce-changed')
+            if len(st['after']['path']) != len(st['self']['path']): ks.append('whole:reduce-lifted-single-child')
+        elif st['op'] == 'join_network_at_unit':
+            n, u = st['args'][0], st['args'][1]
+            ks.append('whole:join_at-' + ('recycle-arg' if n['recycle'] else 'linear-arg') + '-' +
+                      ('unit-at-top' if u in st['self']['path'] else
+                       'unit-nested' if u in st['self']['units'] else 'unit-absent'))
+            if st['args_after'][0] != n: ks.append('whole:join_at-argument-mutated')
+        else:
+            n = st['args'][0]
+            ks.append('whole:append-' + ('rc' if st['self']['recycle'] else 'lin') + '-' + ('rc' if n['recycle'] else 'lin'))
     for r in out.get('sorts', []):
         depth = lambda t: 1 + max([depth(i) for i in t['path'] if isinstance(i, dict)] or [0])
         ks.append(f'nsort:depth{depth(r["before"])}')
         ks.append('nsort:' + ('moved' if [str(i) for i in r['before']['path']] != [str(i) for i in r['after']['path']] else 'top-level-unchanged'))
         if not r['ok']: ks.append('nsort:warned')
         if sorted(subnets(r['after'])) != sorted(subnets(r['before'])): ks.append('nsort:subnet-changed')
-    if case['kind'] == 'nsort': return ks
+    if case['kind'] in ('nsort', 'whole'): return ks
     if case['kind'] == 'sort':
         ks.append('sort:reach-' + ('strict-order' if strict_on_path(case) else 'cyclic'))
         ks.append('sort:' + ('moved' if out.get('path') != case['path'] else 'already-ordered'))
@@ -818,6 +946,7 @@ def classify(case, out):
 
 # ------------------------------------------------------------------ direct oracle: the C19 clauses on the real output
 def verdict(case, out):
+    if case['kind'] == 'whole': return None      # direct calls of the methods: the property speaks about from_units only
     if case['kind'] == 'nsort':
         r = out['sorts'][0]
         if sorted(flat(r['after'])) != sorted(flat(r['before'])):
